@@ -5,6 +5,7 @@ import (
 	"context"
 	"fmt"
 	"math/rand"
+	"os"
 	"sort"
 	"strings"
 	"testing"
@@ -16,6 +17,7 @@ import (
 	"verifharness/cafsh"
 	"verifharness/coreh"
 	"verifharness/drv"
+	"verifharness/fuseh"
 	"verifharness/gen"
 	"verifharness/memstore"
 )
@@ -171,6 +173,72 @@ func run06(c drv.Case, res *drv.Result) {
 	}
 	baseMeta := base.Meta.Snapshot()
 
+	// ---- a second upload presenting the ID of an already committed bundle (a retried commit of a mutable mount, a
+	// client that preserved its bundle ID): whatever it reports, the committed descriptor and file lists stay as they are
+	if len(prior) > 0 {
+		re := base.Clone()
+		victimID := prior[len(prior)-1]
+		t2 := p.Tree2.Tree()
+		re.MemConsumable("re-src", t2)
+		_, rerr := re.Upload(memstore.NewActor("second-writer"), "r", re.W.Store("re-src").For(nil), coreh.UploadOpts{Leaf: p.Leaf, Concurrency: 2, BundleID: victimID})
+		res.Stat("second_uploads_under_a_committed_id", 1)
+		if rerr != nil {
+			res.Stat("second_uploads_under_a_committed_id_refused", 1)
+		}
+		for k, v := range baseMeta {
+			if !strings.HasPrefix(k, "bundles/r/"+victimID+"/") {
+				continue
+			}
+			if nv, ok := re.Meta.RawGet(k); !ok || !bytes.Equal(nv, v) {
+				what := "file-list"
+				if strings.HasSuffix(k, "/bundle.yaml") {
+					what = "descriptor"
+				}
+				res.Violate("committed-metadata-altered", "second-upload-under-the-same-id|"+what, "a second upload presenting the ID of the committed bundle %s (result: %v) changed %s (%d -> %d bytes)", victimID, rerr, k, len(v), len(nv))
+				return
+			}
+		}
+	}
+	// ---- a mutable mount committed twice (Commit, then Unmount commits again): the bundle that became visible with the
+	// first commit keeps its descriptor and file lists, whatever the second commit reports
+	if p.Op == "upload" && !p.Sampled {
+		me := base.Clone()
+		stag, err := os.MkdirTemp(os.Getenv("VERIF_SCRATCH"), "c06-mnt-")
+		must(err)
+		mm, err := fuseh.NewMutable(me, memstore.NewActor("mount"), "r", stag, p.Leaf)
+		must(err)
+		mk := func(name string, n int) {
+			e, err := mm.Create(1, name)
+			must(err)
+			must(mm.Write(uint64(e.Child), 0, gen.Bytes(p.Seed, "mnt-"+name, n)))
+		}
+		mk("a", 100)
+		id1, err := mm.Commit()
+		must(err)
+		snap1 := map[string][]byte{}
+		for k, v := range me.Meta.Snapshot() {
+			if strings.HasPrefix(k, "bundles/r/"+id1+"/") {
+				snap1[k] = v
+			}
+		}
+		mk("b", 200)
+		id2, err2 := mm.Commit()
+		os.RemoveAll(stag)
+		res.Stat("mounts_committed_twice", 1)
+		if err2 != nil {
+			res.Stat("second_commits_refused", 1)
+		}
+		for k, v := range snap1 {
+			if nv, ok := me.Meta.RawGet(k); !ok || !bytes.Equal(nv, v) {
+				what := "file-list"
+				if strings.HasSuffix(k, "/bundle.yaml") {
+					what = "descriptor"
+				}
+				res.Violate("committed-metadata-altered", "mount-committed-twice|"+what, "the second commit of a mutable mount (bundle %s, then %s, result %v) changed %s of the bundle made visible by the first commit (%d -> %d bytes)", id1, id2, err2, k, len(v), len(nv))
+				return
+			}
+		}
+	}
 	// ---- dry run: the operation's writes
 	dry := base.Clone()
 	da := memstore.NewActor("dry")
